@@ -54,6 +54,23 @@ Fixpoint log2up_fuel (fuel : nat) (k : nat) (n : Z) : nat :=
   end.
 Definition cap_log (n : Z) : nat := log2up_fuel 40 0 n.
 
+(* muggle_ring_buffer_init: the requested capacity (a muggle_sync_t = uint32_t) is rounded up to a
+   power of two by muggle_next_pow_of_2 and stored in a muggle_atomic_int (int32_t): 0 is refused,
+   and so is every request above 2^30 (the rounded value 2^31 / 2^32 is <= 0 as an int32_t).
+   None = MUGGLE_ERR_INVALID_PARAM *)
+Definition init_capacity (n : Z) : option Z :=
+  if n <=? 0 then None
+  else let cp := 2 ^ Z.of_nat (cap_log n) in
+       if cp <=? 2 ^ 30 then Some cp else None.
+
+(* C types the model relies on (sizeof, signed?): capacity is a muggle_atomic_int (int32_t: the
+   refusal above depends on its sign), cursor and read_cursor are muggle_sync_t (uint32_t futex
+   words) holding positions below the capacity, the index of muggle_ring_buffer_read is a uint32_t
+   (wrap modulo two32 in the reader's register), flag / write_mode / read_mode are ints *)
+Definition ty_fields : list (Z * Z) := [(4, 1); (4, 0); (4, 0); (4, 1); (4, 1); (4, 1)].
+(* a block holds one pointer at offset 0 *)
+Definition ty_block_ptr : Z * Z := (0, 8).
+
 (* ------------------------------------------------------------------ *)
 (* plain cells, views *)
 Inductive pcell := CSlot (j : Z) | CPay (m : Z) | CRc.
@@ -113,6 +130,13 @@ Definition cap (c : cfg) : Z := 2 ^ Z.of_nat (c_k c).
 Definition two32 : Z := 4294967296.
 Definition payf (id : Z) : Z := id * 7 + 3.
 
+(* A reader may start at ANY 32-bit index: its first index c_idx0 names the ring position
+   c_idx0 mod capacity, which holds the message with the largest logical position <= c_pre that is
+   congruent to it (the cursor position itself = the next message to be written): a reader that joins
+   late starts at an older, still valid message.  rd_start is that logical position (harness: rstart[r]);
+   it is negative iff the position has never been written. *)
+Definition rd_start (c : cfg) (t : nat) : Z := c_pre c - (c_pre c - c_idx0 c t) mod cap c.
+
 Inductive pc :=
   (* writer *)
   | WStart      (* plain: harness throttle; ticket, payload store, note; single writer: slot store *)
@@ -158,6 +182,8 @@ Record tstate := {
   t_ret : Z;            (* read-once: message taken, returned after the unlock *)
   t_got : Z -> Z;       (* ghost: k-th result *)
   t_gotn : Z -> Z;      (* ghost, read-once: position in read-mutex order of the k-th result *)
+  t_start : Z;          (* harness rstart[r]: logical position (number of messages before it in the write
+                           order) of the reader's first index; constant *)
 }.
 
 Record sys := {
@@ -188,7 +214,7 @@ Definition tinit (c : cfg) (t : nat) : tstate :=
      t_rem := if is_writer c t then c_wcnt c t else if is_reader c t then c_rq c t else O;
      t_msg := 0; t_pos := 0;
      t_idx := c_idx0 c t; t_cnt := 0; t_ret := 0;
-     t_got := fun _ => 0; t_gotn := fun _ => 0 |}.
+     t_got := fun _ => 0; t_gotn := fun _ => 0; t_start := rd_start c t |}.
 
 Definition init (c : cfg) : sys :=
   {| s_cfg := c;
@@ -294,13 +320,13 @@ Definition set_take (s : sys) (t : nat) (m : Z) (unc : nat) : sys :=
 
 Definition set_pc (x : tstate) (p : pc) : tstate :=
   {| t_pc := p; t_view := t_view x; t_rem := t_rem x; t_msg := t_msg x; t_pos := t_pos x;
-     t_idx := t_idx x; t_cnt := t_cnt x; t_ret := t_ret x; t_got := t_got x; t_gotn := t_gotn x |}.
+     t_idx := t_idx x; t_cnt := t_cnt x; t_ret := t_ret x; t_got := t_got x; t_gotn := t_gotn x; t_start := t_start x |}.
 Definition set_pcv (x : tstate) (p : pc) (v : view) : tstate :=
   {| t_pc := p; t_view := v; t_rem := t_rem x; t_msg := t_msg x; t_pos := t_pos x;
-     t_idx := t_idx x; t_cnt := t_cnt x; t_ret := t_ret x; t_got := t_got x; t_gotn := t_gotn x |}.
+     t_idx := t_idx x; t_cnt := t_cnt x; t_ret := t_ret x; t_got := t_got x; t_gotn := t_gotn x; t_start := t_start x |}.
 Definition set_pcvp (x : tstate) (p : pc) (v : view) (pos : Z) : tstate :=
   {| t_pc := p; t_view := v; t_rem := t_rem x; t_msg := t_msg x; t_pos := pos;
-     t_idx := t_idx x; t_cnt := t_cnt x; t_ret := t_ret x; t_got := t_got x; t_gotn := t_gotn x |}.
+     t_idx := t_idx x; t_cnt := t_cnt x; t_ret := t_ret x; t_got := t_got x; t_gotn := t_gotn x; t_start := t_start x |}.
 
 (* ------------------------------------------------------------------ *)
 (* cells and notes of the trace *)
@@ -312,27 +338,31 @@ Definition note_put : nat := 1%nat.
 Definition note_got : nat := 2%nat.
 Definition note_pay : nat := 3%nat.
 
-(* harness throttle (c02_driver.c can_begin) *)
-Definition min_cnt (thr : nat -> tstate) (readers : list nat) : Z :=
-  let lo := fold_left (fun lo u => if (lo <? 0) || (t_cnt (thr u) <? lo) then t_cnt (thr u) else lo)
-                      readers (-1) in
-  if lo <? 0 then 0 else lo.
+(* harness throttle (c02_driver.c can_begin): a writer may begin message k only when k + 1 is less than a
+   capacity ahead of the next index of every reader that still has reads to do (a reader that has
+   finished its quota no longer constrains the writers); read-once: of the number of delivered messages *)
+Definition active (x : tstate) : bool := negb (Nat.eqb (t_rem x) O).
+Definition rnext (x : tstate) : Z := t_start x + t_cnt x.
+Definition min_next (thr : nat -> tstate) (readers : list nat) : Z :=
+  fold_left (fun lo u => if active (thr u) && ((lo <? 0) || (rnext (thr u) <? lo)) then rnext (thr u) else lo)
+            readers (-1).
 Definition readers (c : cfg) : list nat := seq (c_nw c) (c_nr c).
 Definition can_begin (s : sys) : bool :=
   let c := s_cfg s in
-  let lo := match c_rm c with
-            | ROnce => s_deliv s
-            | _ => min_cnt (s_thr s) (readers c) + c_pre c
-            end in
-  s_begun s + 1 <? lo + cap c.
+  match c_rm c with
+  | ROnce => s_begun s + 1 <? s_deliv s + cap c
+  | _ => let lo := min_next (s_thr s) (readers c) in
+         (lo <? 0) || (s_begun s + 1 <? lo + cap c)
+  end.
 
 (* the documented precondition, checked when a write begins (slot store): writes begun stay
-   less than capacity ahead of every reader's next index (read-once: of the shared position) *)
+   less than capacity ahead of the next index of every reader that still reads (read-once: of the
+   shared position) *)
 Definition nolap_ok (s : sys) (wbeg' : Z) : bool :=
   let c := s_cfg s in
   match c_rm c with
   | ROnce => wbeg' <? s_nt s + cap c
-  | _ => forallb (fun u => wbeg' <? c_pre c + t_cnt (s_thr s u) + cap c) (readers c)
+  | _ => forallb (fun u => negb (active (s_thr s u)) || (wbeg' <? rnext (s_thr s u) + cap c)) (readers c)
   end.
 
 Definition is_blocked (p : pc) : bool := match p with RBlocked | KBlocked => true | _ => false end.
@@ -385,7 +415,7 @@ Definition step (P : params) (s : sys) (t : nat) (ch : nat) : option (sys * labe
         | WLock =>
           let x' := {| t_pc := WAcq; t_view := v1; t_rem := rem'; t_msg := id; t_pos := t_pos x;
                        t_idx := t_idx x; t_cnt := t_cnt x; t_ret := t_ret x; t_got := t_got x;
-                       t_gotn := t_gotn x |} in
+                       t_gotn := t_gotn x; t_start := t_start x |} in
           Some (set_thr s1 t x', LPlain [(note_put, id)])
         | WSingle =>
           (* muggle_ring_buffer_write_single: the slot store is in the same plain segment *)
@@ -395,7 +425,7 @@ Definition step (P : params) (s : sys) (t : nat) (ch : nat) : option (sys * labe
           let x' := {| t_pc := WCursor; t_view := v2; t_rem := rem'; t_msg := id;
                        t_pos := (j + 1) mod cap c;
                        t_idx := t_idx x; t_cnt := t_cnt x; t_ret := t_ret x; t_got := t_got x;
-                       t_gotn := t_gotn x |} in
+                       t_gotn := t_gotn x; t_start := t_start x |} in
           Some (set_thr s2 t x', LPlain [(note_put, id)])
         end
     end
@@ -482,7 +512,7 @@ Definition step (P : params) (s : sys) (t : nat) (ch : nat) : option (sys * labe
     let x' := {| t_pc := match rem' with O => TFin | S _ => RLoad end;
                  t_view := t_view x; t_rem := rem'; t_msg := t_msg x; t_pos := t_pos x;
                  t_idx := (t_idx x + 1) mod two32; t_cnt := t_cnt x + 1; t_ret := m;
-                 t_got := zupd (t_got x) (t_cnt x) m; t_gotn := t_gotn x |} in
+                 t_got := zupd (t_got x) (t_cnt x) m; t_gotn := t_gotn x; t_start := t_start x |} in
     Some (set_thr (set_read s (unc1 cs + unc1 cp)) t x', LPlain [(note_got, v); (note_pay, pv)])
   (* ---------------- reader: read-once ---------------- *)
   | KStart =>
@@ -511,7 +541,8 @@ Definition step (P : params) (s : sys) (t : nat) (ch : nat) : option (sys * labe
       let cs := covered (t_view x) (s_ver s) (CSlot j) in
       let x' := {| t_pc := KUnlock; t_view := bump (t_view x) (s_ver s) CRc; t_rem := t_rem x;
                    t_msg := t_msg x; t_pos := t_pos x; t_idx := t_idx x; t_cnt := t_cnt x;
-                   t_ret := m; t_got := t_got x; t_gotn := zupd (t_gotn x) (t_cnt x) (s_nt s) |} in
+                   t_ret := m; t_got := t_got x; t_gotn := zupd (t_gotn x) (t_cnt x) (s_nt s);
+                   t_start := t_start x |} in
       Some (set_thr (set_take s t m (unc1 crc + unc1 cs)) t x', LPlain [])
   | KWaitOp =>
     if s_cursor s =? t_pos x
@@ -530,6 +561,6 @@ Definition step (P : params) (s : sys) (t : nat) (ch : nat) : option (sys * labe
     let x' := {| t_pc := match rem' with O => TFin | S _ => KLock end;
                  t_view := t_view x; t_rem := rem'; t_msg := t_msg x; t_pos := t_pos x;
                  t_idx := (t_idx x + 1) mod two32; t_cnt := t_cnt x + 1; t_ret := m;
-                 t_got := zupd (t_got x) (t_cnt x) m; t_gotn := t_gotn x |} in
+                 t_got := zupd (t_got x) (t_cnt x) m; t_gotn := t_gotn x; t_start := t_start x |} in
     Some (set_thr (set_read s (unc1 cp)) t x', LPlain [(note_got, v); (note_pay, pv)])
   end.
